@@ -3,7 +3,7 @@
 //! This never counts as proof. It is used (a) to attach a concrete failing input to a VIOLATION reported by the verifier,
 //! (b) as the labelled bounded fallback when a source change puts a function outside the verifier's reach.
 //! Output: one line per check `PASS <check> cases=<n>` or `FAIL <check> <input that fails> :: <observed vs expected>`.
-use std::collections::BTreeMap;
+use std::collections::{BTreeMap, BTreeSet};
 use std::io::{Read, Seek, SeekFrom, Write};
 use std::panic::{catch_unwind, AssertUnwindSafe};
 use vfs::error::VfsErrorKind;
@@ -49,7 +49,7 @@ fn oracle_paths(max: usize) -> bool {
     let mut r = Report::new("paths");
     let root: VfsPath = MemoryFS::new().into();
     let bases: Vec<Vec<String>> = vec![vec![], vec!["a".into()], vec!["a".into(), "b".into()], vec!["é".into()], vec!["a.b".into(), "c.d".into()]];
-    let args = strings(&['/', '.', 'a', 'é'], max);
+    let args = strings(&['/', '.', 'a', 'é', ' '], max);
     for base in &bases {
         let mut p = root.clone();
         for c in base { p = p.join(c).unwrap(); }
@@ -440,6 +440,8 @@ fn oracle_overlay(depth: usize) -> bool {
 /// OverlayFS over pre-populated layers must behave like ONE plain tree initialised with the upper-shadows-lower union.
 /// Operations in the input classes of the known findings (known_findings.json) are not generated: create_dir / create_file(dir) over an
 /// entry that the upper layer does not have, type-mismatched removes, remove_dir of a non-empty directory.
+/// lower-layer content longer than any copy buffer (a copy-up that stops early shows)
+fn big_h() -> Vec<u8> { (0..20_000u32).map(|i| (i % 251) as u8).collect() }
 fn oracle_union(depth: usize) -> bool {
     let mut r = Report::new("union.overlay");
     let universe = ["", "/f", "/d", "/d/g", "/h", "/n", "/d/n", "/e"];
@@ -457,14 +459,14 @@ fn oracle_union(depth: usize) -> bool {
             l1.join("f").unwrap().create_file().unwrap().write_all(b"f1").unwrap();
             l1.join("e").unwrap().create_dir().unwrap();
             l2.join("f").unwrap().create_file().unwrap().write_all(b"f2").unwrap();
-            l2.join("h").unwrap().create_file().unwrap().write_all(b"h2").unwrap();
+            l2.join("h").unwrap().create_file().unwrap().write_all(&big_h()).unwrap();
             // names ending in "_wo" are reserved by the overlay (C01 leaves them unspecified) and are not generated: on the pinned tree the marker of
             // "/f" (.whiteout/f_wo) collides with the marker folder of a directory "/f_wo"
             l2.join("d").unwrap().create_dir().unwrap();
             let mut m: Model = BTreeMap::new();
             m.insert(String::new(), Node::Dir);
             m.insert("/d".into(), Node::Dir); m.insert("/d/g".into(), Node::File(b"g1".to_vec())); m.insert("/f".into(), Node::File(b"f1".to_vec()));
-            m.insert("/e".into(), Node::Dir); m.insert("/h".into(), Node::File(b"h2".to_vec()));
+            m.insert("/e".into(), Node::Dir); m.insert("/h".into(), Node::File(big_h()));
             if upper_has_f { upper.join("f").unwrap().create_file().unwrap().write_all(b"f0").unwrap(); m.insert("/f".into(), Node::File(b"f0".to_vec())); }
             let ov: VfsPath = OverlayFS::new(&[upper.clone(), l1, l2]).into();
             // filter out the input classes of the known findings (evaluated on the model / upper layer as the sequence proceeds)
@@ -885,6 +887,62 @@ fn oracle_hostile() -> bool {
 #[cfg(not(unix))]
 fn oracle_hostile() -> bool { true }
 
+// ------------------------------------------------------------------------------------------------ embedded view (C18)
+#[derive(rust_embed::RustEmbed, Debug)]
+#[folder = "embed"]
+struct Emb;
+/// EmbeddedFS over the fixture folder replay/embed against PhysicalFS on the same folder: every embedded file and implied directory, the root,
+/// and for each of them an extension, a prefix, a sibling and a path below it: existence, type, length, bytes, listings, walk; every mutating
+/// call is refused as not-supported and changes nothing
+fn oracle_embedded() -> bool {
+    let mut r = Report::new("embedded");
+    let folder = std::path::Path::new(env!("CARGO_MANIFEST_DIR")).join("embed");
+    let phys: VfsPath = vfs::PhysicalFS::new(&folder).into();
+    let emb: VfsPath = vfs::EmbeddedFS::<Emb>::new().into();
+    let mut universe: BTreeSet<String> = BTreeSet::new();
+    universe.insert(String::new());
+    for e in phys.walk_dir().unwrap() { universe.insert(e.unwrap().as_str().to_string()); }
+    let base: Vec<String> = universe.iter().cloned().collect();
+    for p in &base {
+        universe.insert(format!("{}x", p)); universe.insert(format!("{}/below", p)); universe.insert(format!("{}/.", p).trim_end_matches("/.").to_string());
+        if p.chars().count() > 1 { let mut q: Vec<char> = p.chars().collect(); q.pop(); let q: String = q.into_iter().collect(); if !q.ends_with('/') { universe.insert(q); } }
+        if let Some(i) = p.rfind('/') { universe.insert(format!("{}/zz", &p[..i])); }
+    }
+    let snap = |root: &VfsPath| -> Vec<(String, bool, u64)> { let mut v: Vec<(String, bool, u64)> = root.walk_dir().unwrap().map(|e| { let e = e.unwrap(); let m = e.metadata().unwrap(); (e.as_str().to_string(), m.file_type == VfsFileType::Directory, m.len) }).collect(); v.sort(); v };
+    let before = snap(&emb);
+    if before != snap(&phys) { r.fail("walk_dir from the root".into(), format!("embedded {:?}, physical {:?}", before, snap(&phys))); }
+    for p in &universe {
+        r.case();
+        let res = catch_unwind(AssertUnwindSafe(|| {
+            let (qe, qp) = if p.is_empty() { (emb.clone(), phys.clone()) } else { (match emb.join(&p[1..]) { Ok(q) => q, Err(_) => return None }, phys.join(&p[1..]).unwrap()) };
+            let (a, b) = (qe.exists().ok(), qp.exists().ok());
+            if a != b { return Some(format!("exists: embedded {:?}, physical {:?}", a, b)); }
+            let md = |q: &VfsPath| q.metadata().ok().map(|m| (m.file_type == VfsFileType::Directory, m.len));
+            if md(&qe) != md(&qp) { return Some(format!("metadata: embedded {:?}, physical {:?}", md(&qe), md(&qp))); }
+            if (qe.is_file().ok(), qe.is_dir().ok()) != (qp.is_file().ok(), qp.is_dir().ok()) { return Some("is_file / is_dir differ".to_string()); }
+            let ls = |q: &VfsPath| q.read_dir().ok().map(|it| { let mut v: Vec<String> = it.map(|c| c.as_str().to_string()).collect(); v.sort(); v });
+            let (le, lp) = (ls(&qe), if qp.is_dir().unwrap_or(false) { ls(&qp) } else { None });
+            if le != lp { return Some(format!("read_dir: embedded {:?}, physical {:?}", le, lp)); }
+            let rd = |q: &VfsPath| q.open_file().ok().and_then(|mut h| { let mut b = vec![]; h.read_to_end(&mut b).ok().map(|_| b) });
+            let (be, bp) = (rd(&qe), if qp.is_file().unwrap_or(false) { rd(&qp) } else { None });
+            if be != bp { return Some(format!("bytes: embedded {:?}, physical {:?}", be, bp)); }
+            if qe.read_to_string().ok() != (if qp.is_file().unwrap_or(false) { qp.read_to_string().ok() } else { None }) { return Some("read_to_string differs".to_string()); }
+            // mutating calls: refused as not-supported, nothing changes
+            let t = std::time::SystemTime::UNIX_EPOCH;
+            let outcomes: Vec<(&str, VfsResult<()>)> = vec![("create_dir", qe.create_dir()), ("create_file", qe.create_file().map(|_| ())), ("append_file", qe.append_file().map(|_| ())),
+                ("remove_file", qe.remove_file()), ("remove_dir", qe.remove_dir()), ("set_creation_time", qe.set_creation_time(t)), ("set_modification_time", qe.set_modification_time(t)), ("set_access_time", qe.set_access_time(t))];
+            // the path layer checks the parent of create_dir / create_file itself: below a missing or non-directory parent any refusal will do
+            let parent_is_dir = p.is_empty() || qp.parent().is_dir().unwrap_or(false);
+            for (name, o) in outcomes { match o { Ok(()) => return Some(format!("{} succeeded on a read-only filesystem", name)),
+                Err(e) => if !matches!(e.kind(), VfsErrorKind::NotSupported) && (parent_is_dir || !name.starts_with("create_")) { return Some(format!("{} failed with {:?}, expected NotSupported", name, e.kind())); } } }
+            None
+        }));
+        match res { Err(_) => r.fail(format!("path {:?}", p), "panicked".into()), Ok(Some(d)) => r.fail(format!("path {:?}", p), d), Ok(None) => {} }
+    }
+    if snap(&emb) != before { r.fail("after all calls".into(), "the embedded tree changed".into()); }
+    r.done()
+}
+
 fn main() {
     let args: Vec<String> = std::env::args().skip(1).collect();
     let deep = args.iter().any(|a| a == "--deep");
@@ -908,6 +966,7 @@ fn main() {
             "copydir" => oracle_copydir(),
             "faults" => oracle_faults(),
             "times" => oracle_times(),
+            "embedded" => oracle_embedded(),
             "handles" => oracle_handles(),
             "hostile.physical" => oracle_hostile(),
             other => { println!("UNKNOWN {}", other); false }
